@@ -267,6 +267,20 @@ def execute(trace, ctx=None):
                         zero = newest is not None and not newest
                         fail("latest-disagrees", slot, "Hexital.has_reading" + (":falsy-reading" if zero else ""),
                              {"got": h_has, "newest": newest, "stage": stage})
+                    if isinstance(newest, dict):
+                        # one FIELD of a dict-valued reading, by its dotted name: the same three questions
+                        for fld in sorted(newest):
+                            dotted = f"{own}.{fld}"
+                            try:
+                                f_read, f_has = hx.reading(dotted), hx.has_reading(dotted)
+                            except Exception as exc:  # noqa: BLE001
+                                fail("accessor-raises", slot, "Hexital-dotted:" + type(exc).__name__, {"stage": stage})
+                            if freeze(f_read) != freeze(newest[fld]):
+                                fail("latest-disagrees", slot, "Hexital.reading(name.field)",
+                                     {"got": f_read, "newest": newest[fld], "field": fld, "stage": stage})
+                            if f_has != (newest[fld] is not None):
+                                fail("latest-disagrees", slot, "Hexital.has_reading(name.field)",
+                                     {"got": f_has, "newest": newest[fld], "field": fld, "stage": stage})
                 comparisons += 4
 
         for i, op in enumerate(trace["ops"]):
